@@ -5,6 +5,7 @@ TODO: Handle sys.argv
 
 """
 
+import ast
 import sys
 import io
 import types
@@ -740,8 +741,15 @@ class Sandbox:
         """
         if isinstance(value, SandboxVariable):
             return value.name
-        if len(repr(value)) <= self.MAXIMUM_TEMPORARY_LENGTH:
-            return repr(value)
+        value_repr = repr(value)
+        if len(value_repr) <= self.MAXIMUM_TEMPORARY_LENGTH:
+            # Only inline the value if its repr really is a literal for it
+            # (not, e.g., `inf`, `nan` or `<Dog object at 0x...>`)
+            try:
+                ast.literal_eval(value_repr)
+                return value_repr
+            except (ValueError, SyntaxError, TypeError, MemoryError, RecursionError):
+                pass
         key = '_temporary_{}_{}'.format(category, name)
         if key in self.data:
             self._backup_variables[key] = self.data[key]
